@@ -6,15 +6,26 @@ From Verif Require Import Common.Base Binary.Model.
 (* every Read call of the underlying stream delivers at least one byte *)
 Definition positive_sched (s : list Z) : Prop := Forall (fun c => 0 < c) s.
 
+(* run_ok k s: the script s, entered after k consecutive empty reads ((0, nil): an entry <= 0), never
+   delivers a 100th consecutive empty read.  tame_sched: every run of empty reads is shorter than
+   maxConsecutiveEmptyReads = 100. *)
+Fixpoint run_ok (k : Z) (s : list Z) : Prop :=
+  match s with
+  | [] => True
+  | c :: t => if 0 <? c then run_ok 0 t else k + 1 < MAX_EMPTY /\ run_ok (k + 1) t
+  end.
+Definition tame_sched (s : list Z) : Prop := run_ok 0 s.
+
 (* A healthy source of the byte string d, as the constructors build it: the stream delivers d in
-   arbitrary non-empty chunks, reports io.EOF after the last byte or together with the last bytes (ewl),
+   arbitrary chunks, with fewer than 100 consecutive empty reads ((0, nil)) between them (tame_sched),
+   reports io.EOF after the last byte or together with the last bytes (ewl),
    and the size handed to the constructor is len d.  (An os.File is the ReadSeeker backend with a closer
    and no schedule.) *)
 Inductive healthy : bstate -> list Z -> Prop :=
 | H_bytes d : healthy (SBytes d) d
 | H_mmap d : healthy (SMmap (mmap_open d)) d
-| H_reader d sched ewl : positive_sched sched -> healthy (SReader (mkR d sched ewl E_EOF 0 (len d))) d
-| H_seeker d sched ewl closer : positive_sched sched ->
+| H_reader d sched ewl : tame_sched sched -> healthy (SReader (mkR d sched ewl E_EOF 0 (len d))) d
+| H_seeker d sched ewl closer : tame_sched sched ->
     healthy (SSeeker (mkK d sched ewl E_EOF (len d) false closer)) d
 | H_readerat d ewl : healthy (SReaderAt (mkA d [] ewl E_EOF (len d))) d.
 
